@@ -497,7 +497,7 @@ var mutators = []mutator{
 			ok1.seq = wire.SequenceLockTimeIsSeconds | 1 // 512 s: long met
 			ok2 := c.sp(c.bs.cbOp(2, kTrue))
 			ok2.seq = wire.SequenceLockTimeDisabled | 0xffff
-			c.txs = append(c.txs, c.pay(2, 0, place(bad, ok1, ok2)...))
+			c.txs = append(c.txs, c.pay(2, 0, place(bad, ok2, ok1)...)) // the input with the disable flag comes first
 		case 1:
 			bad := c.sp(c.cbAt(c.height - c.bs.v.maturity + 1))
 			ok1 := c.sp(c.bs.cbOp(2, kTrue))
